@@ -58,6 +58,15 @@ def run(ctx):
     for r in RFC_REFS:
         pairs.add(("http://a/b/c/d;p?q", r))
         pairs.add(("http://a/b/c/d;p?q#f", r))
+    # every reference of up to 4 (quick) / 5 segments over {.., ., "", g}, rooted or not, against bases of every depth:
+    # climbing above the root followed by empty segments, dot segments in every position
+    small = ["..", ".", "", "g"]
+    for k in range(1, (4 if ctx.quick else 5) + 1):
+        for combo in itertools.product(small, repeat=k):
+            r = "/".join(combo)
+            for b in ("http://a", "http://a/", "http://a/b", "http://a/b/c", "http://a/b/", "http://a//b", "x:/b/c", "x:b/c"):
+                pairs.add((b, r))
+                pairs.add((b, "/" + r))
     su = gens.structured_urls(rng, 400 if ctx.quick else 6000)
     for _ in range(1500 if ctx.quick else 30000):
         pairs.add((rng.choice(su), rng.choice(su)))
